@@ -24,6 +24,30 @@ from suds.transport.http import HttpTransport
 import urllib.request, urllib.error, urllib.parse
 
 
+class _CurrentCredentials(urllib.request.HTTPPasswordMgrWithDefaultRealm):
+    """
+    A password manager that offers, for the URLs registered with it, the
+    credentials its transport is configured with at the time of the lookup
+    (never those of an earlier request); nothing is replaced per request, so
+    concurrent requests through one transport do not disturb each other.
+
+    """
+
+    def __init__(self, transport):
+        urllib.request.HTTPPasswordMgrWithDefaultRealm.__init__(self)
+        self.transport = transport
+
+    def find_user_password(self, realm, authuri):
+        found = urllib.request.HTTPPasswordMgrWithDefaultRealm.\
+            find_user_password(self, realm, authuri)
+        if found == (None, None):
+            return found
+        credentials = self.transport.credentials()
+        if None in credentials:
+            return None, None
+        return credentials
+
+
 class HttpAuthenticated(HttpTransport):
     """
     Provides basic HTTP authentication that follows the RFC-2617 specification.
@@ -55,7 +79,7 @@ class HttpAuthenticated(HttpTransport):
 
         """
         HttpTransport.__init__(self, **kwargs)
-        self.pm = urllib.request.HTTPPasswordMgrWithDefaultRealm()
+        self.pm = _CurrentCredentials(self)
 
     def open(self, request):
         self.addcredentials(request)
@@ -67,9 +91,6 @@ class HttpAuthenticated(HttpTransport):
 
     def addcredentials(self, request):
         credentials = self.credentials()
-        # Only the credentials configured now are offered: entries kept from
-        # earlier requests would win for every URL below theirs.
-        self.pm = urllib.request.HTTPPasswordMgrWithDefaultRealm()
         if None not in credentials:
             u = credentials[0]
             p = credentials[1]
